@@ -99,6 +99,11 @@ func (c *channel) newNodeStream(conn *grpc.ClientConn) error {
 	c.streamCtx, c.cancelStream = context.WithCancel(c.parentCtx)
 	c.gorumsClient = ordering.NewGorumsClient(conn)
 	c.gorumsStream, err = c.gorumsClient.NodeStream(c.streamCtx)
+	if err != nil {
+		// release the context of the stream that was not created; every
+		// request to an unreachable node gets here
+		c.cancelStream()
+	}
 	c.streamMut.Unlock()
 	if err != nil {
 		return err
